@@ -9,6 +9,12 @@ namespace C07Codec
 
 def optInt (j : J) : Option Int := match j with | .num n => some n | _ => none
 
+def clsOf (j : J) (k : String) : FCls :=
+  match j.strD k with
+  | "inf" => .inf
+  | "nan" => .nan
+  | _ => .finite
+
 partial def pvOfWire : J → PV
   | .null => .none
   | .bool b => .bool b
@@ -42,10 +48,10 @@ partial def jvOfWire : J → JV
   | .arr a => .list (a.map jvOfWire)
   | j@(.obj _) =>
     match j.get? "f", j.get? "s", j.get? "o" with
-    | some (.str t), _, _ => .float t (optInt (j.getD "int"))
+    | some (.str t), _, _ => .float t (optInt (j.getD "int")) (clsOf j "cls")
     | _, some (.str s), _ =>
       let flt := match j.getD "flt" with
-        | f@(.obj _) => some (f.strD "r", optInt (f.getD "int"))
+        | f@(.obj _) => some (f.strD "r", optInt (f.getD "int"), clsOf f "cls")
         | _ => none
       .str s (optInt (j.getD "i10")) flt
     | _, _, some (.arr kvs) => .obj (kvs.map fun kv =>
@@ -58,7 +64,7 @@ partial def litOfWire (j : J) : Lit :=
   match j.strD "k" with
   | "null" => .null
   | "int" => .int (j.intD "v")
-  | "float" => .float (j.strD "v")
+  | "float" => .float (j.strD "v") (clsOf j "cls")
   | "str" => .str (j.strD "v")
   | "bool" => .bool (j.boolD "v")
   | "enum" => .enum (j.strD "v")
